@@ -46,7 +46,8 @@ def h_lists(ctx, d, N, F, cell, ppp, kind, Nn=None, types=None, fixed=0):
     rn = ctx.repo("PyMatterSim.neighbors.read_neighbors")
     ru = ctx.repo("PyMatterSim.reader.reader_utils")
     sym = ctx.mode == "sym"
-    rows = C.make_cell(ctx, d, cell)
+    cells = list(cell) if isinstance(cell, (list, tuple)) else [cell] * F     # the box may change from frame to frame (NPT)
+    rows_f = [C.make_cell(ctx, d, c) for c in cells]
     types = types or [1] * N
     K = max(types)
     fixed_pos = [["1/3", "1/5", "1/7"], ["-2/5", "3/4", "1/2"], ["9/10", "-1/3", "-3/5"], ["-1/7", "-6/5", "4/5"]]
@@ -61,12 +62,12 @@ def h_lists(ctx, d, N, F, cell, ppp, kind, Nn=None, types=None, fixed=0):
                 prow.append([ctx.real(f"p{f}_{i}_{a}") for a in range(d)])
         pos = C.farr(ctx, prow)
         poss.append(prow)
-        snaps.append(C.snapshot(ctx, ru, f, types, pos, rows))
+        snaps.append(C.snapshot(ctx, ru, f, types, pos, rows_f[f]))
     S = ru.Snapshots(nsnapshots=F, snapshots=snaps)
 
     def d2(f, i, j):
         v = [poss[f][j][a] - poss[f][i][a] for a in range(d)]
-        return C.norm2(C.min_image(ctx, v, rows, ppp))
+        return C.norm2(C.min_image(ctx, v, rows_f[f], ppp))
 
     D2 = [[[d2(f, i, j) if i != j else 0 for j in range(N)] for i in range(N)] for f in range(F)]
     for f in range(F):
@@ -201,6 +202,11 @@ def cfg_lists(tier, seed):
         # sort orders is not explored)
         out.append(dict(d=d, N=3, F=2, cell="sym-o", ppp=open_, kind="global", fixed=[1, 3]))
         out.append(dict(d=d, N=3, F=2, cell="sym-o", ppp=open_, kind="nnearest", Nn=1, fixed=[3, 1]))
+        # the cell changes between frames (constant-pressure runs): each frame's own cell must be used
+        out.append(dict(d=d, N=3, F=2, cell=["o", "t-"], ppp=full, kind="global", fixed=[3, 2]))
+        out.append(dict(d=d, N=3, F=2, cell=["t+", "o"], ppp=full, kind="nnearest", Nn=2, fixed=[3, 2]))
+        if tier == "thorough":
+            out.append(dict(d=d, N=3, F=2, cell=["o", "t+"], ppp=full, kind="typed", types=[1, 2, 1], fixed=[3, 2]))
         if tier == "thorough":
             out.append(dict(d=d, N=4, F=1, cell="sym-o", ppp=open_, kind="global", fixed=2))
             out.append(dict(d=d, N=4, F=1, cell="sym-o", ppp=open_, kind="nnearest", Nn=3, fixed=2))
